@@ -69,7 +69,7 @@ prop('C02',
      'DESIGN.md 3.1, 4 C02')
 
 prop('C03',
-     [MI.dt1, MI.ex2, MI.df1, PD.pd5, ST.ls2p, ST.at1, ST.ex1, RG.rg1, RG.rg2, R2.at2, SC.sc5, R3.rs1, R4.exw, R4.um1, R4.nm1, R4.st1, R4.sig1, R4.df2, R4.sbl1, R5.ex1c, SC.pd6, R5.em7, R6.sk1, SC.vb1, R6.reg1, R6.sc9, R7.tc1, R7.sp6, R7.sb8, R3.sp5],
+     [MI.dt1, MI.ex2, MI.df1, PD.pd5, ST.ls2p, ST.at1, ST.ex1, RG.rg1, RG.rg2, R2.at2, SC.sc5, R3.rs1, R4.exw, R4.um1, R4.nm1, R4.st1, R4.sig1, R4.df2, R4.sbl1, R5.ex1c, SC.pd6, R5.em7, R6.sk1, SC.vb1, R6.reg1, R6.sc9, R7.tc1, R7.sp6, R7.sb8, R3.sp5, R7.dt2, R7.to1],
      'no markup class reaches the default emit and comments are dropped (DT1); an argument '
      'handed back for expansion is not expanded a second time by its handler (EX2: no '
      'duplicated footnotes); text of definition files never reaches the output, including '
@@ -94,7 +94,7 @@ prop('C04',
      'DESIGN.md 3.1, 4 C04')
 
 prop('C05',
-     [MO.ac1, MO.ac2, PD.pd4, PD.pd3, R3.tk1, R3.ml8, R3.sc7, R3.ac3, R4.ab5, RX.rp1, R5.um2, R6.em9, R6.sb6, R6.skp1, R7.fd1],
+     [MO.ac1, MO.ac2, PD.pd4, PD.pd3, R3.tk1, R3.ml8, R3.sc7, R3.ac3, R4.ab5, RX.rp1, R5.um2, R6.em9, R6.sb6, R6.skp1, R7.fd1, R7.to1],
      'enabling invariants of the line-removal pass: every vanishing construct leaves an action '
      'token (or a paragraph token / visible text) on every path and substituted arguments are '
      'bracketed by action tokens (AC1); the skip-space set excludes paragraph tokens (AC2); a '
@@ -135,7 +135,7 @@ prop('C07',
      'DESIGN.md 3.6, 4 C07')
 
 prop('C08',
-     [EM.em1, EM.em2, EM.em3, R2.em4, AB.ab1, OK.ok1, SC.sc5, R3.rs1, R4.em5, MI.dt1, R4.em6, R4.st1, MI.ex2, R5.pair1, R5.em7, R5.em8, R6.sk1, PS.ps1, R6.em9, ST.at1],
+     [EM.em1, EM.em2, EM.em3, R2.em4, AB.ab1, OK.ok1, SC.sc5, R3.rs1, R4.em5, MI.dt1, R4.em6, R4.st1, MI.ex2, R5.pair1, R5.em7, R5.em8, R6.sk1, PS.ps1, R6.em9, ST.at1, R7.dt2, R7.sbl3],
      'the mark is used whole (EM1), is produced only together with a diagnostic (EM2), and '
      'recovery pushes the consumed tokens back (EM3)',
      'decides the structural clauses "complete mark", "never a mark without diagnostic", '
@@ -147,7 +147,7 @@ prop('C08',
      'DESIGN.md 3.7, 4 C08')
 
 prop('C09',
-     [C9.sb1, C9.sb2, C9.sb3, C9.sb4, C9.sb5, ST.pd7, PD.pd5, MI.df1, MO.ix6, R3.ix12, MI.uk, R3.rs1, R4.sc8, R4.sb2b, ST.at1, R2.at2, R4.um1, R4.en1, R4.exw, R4.st1, R4.sbl1, PS.ps1, R4.sh1, R6.memo1, R6.lp1, R6.sb6, R6.sb7, R7.sb8, R7.sb2c],
+     [C9.sb1, C9.sb2, C9.sb3, C9.sb4, C9.sb5, ST.pd7, PD.pd5, MI.df1, MO.ix6, R3.ix12, MI.uk, R3.rs1, R4.sc8, R4.sb2b, ST.at1, R2.at2, R4.um1, R4.en1, R4.exw, R4.st1, R4.sbl1, PS.ps1, R4.sh1, R6.memo1, R6.lp1, R6.sb6, R6.sb7, R7.sb8, R7.sb2c, R7.guard1, R7.sbl3],
      'structural clauses only: the substitution loop replaces #k by the complete k-th argument and '
      'copies every other body token once, in order (SB1); one argument per code, defaults at the '
      'index of the code (SB2); \\newcommand / \\def register unconditionally under the literal name '
@@ -169,7 +169,7 @@ prop('C09',
      'DESIGN.md 3.8, 4 C09')
 
 prop('C10',
-     [MT.mt1, MT.mt2, MT.mt5, R2.mt6, R2.mt7, R2.mt8, MI.ex2, MI.lc1, PS.ps3, T.mt4, PD.pd1, R3.ix14, MO.ml2, R3.tk1, PD.pd5, R4.sh1, R4.nm1, MI.dt1, ST.ex1, R5.mt4b, MI.ml6, R4.lt2, R6.spc1, R6.opt1, R6.lt3, R7.sb2c],
+     [MT.mt1, MT.mt2, MT.mt5, R2.mt6, R2.mt7, R2.mt8, MI.ex2, MI.lc1, PS.ps3, T.mt4, PD.pd1, R3.ix14, MO.ml2, R3.tk1, PD.pd5, R4.sh1, R4.nm1, MI.dt1, ST.ex1, R5.mt4b, MI.ml6, R4.lt2, R6.spc1, R6.opt1, R6.lt3, R7.sb2c, R7.dt2],
      'rotation state: an argument is expanded once (EX2: formulas inside handler arguments '
      'consume one placeholder), collections are per language and looked up at the time of use '
      '(LC1), punctuation entries are single characters (MT4), generated tokens pinned (PD1)',
@@ -220,7 +220,7 @@ prop('C13',
      'DESIGN.md 3.2, 4 C13')
 
 prop('C14',
-     [OK.ok1, OK.ok2, OK.ok4, R2.th3, R2.okv, LS.ls1_shell, AB.ab2, MI.oks, PS.ps1, R3.ok6, R3.ml7, R3.ix13, R2.cm2, R4.ml9, R5.tx2, MO.ln1, MO.ml2, AB.ab3, LS.ls1, R2.ml4, R5.un1, R6.lt3, R6.lb1, R7.rx8, R7.ml11, R7.tx4, PD.pd4, MI.ml6, R7.fd1],
+     [OK.ok1, OK.ok2, OK.ok4, R2.th3, R2.okv, LS.ls1_shell, AB.ab2, MI.oks, PS.ps1, R3.ok6, R3.ml7, R3.ix13, R2.cm2, R4.ml9, R5.tx2, MO.ln1, MO.ml2, AB.ab3, LS.ls1, R2.ml4, R5.un1, R6.lt3, R6.lb1, R7.rx8, R7.ml11, R7.tx4, PD.pd4, MI.ml6, R7.fd1, R7.ord1],
      'the chain part offset -> total offset -> LaTeX offset -> line / column: every match of a '
      'part is shifted once by the text accumulated before it (OK2), the accumulated text and map '
      'stay in lock step incl. delimiter padding (LS1s), map entries are read through abs() and '
@@ -250,7 +250,7 @@ prop('C15',
      'DESIGN.md 3.4, 3.2 (AB2), 4 C15')
 
 prop('C16',
-     [TH.th1, TH.th2, R2.th3, R2.th4, R2.cm2, MO.ln1, R3.rx5, R3.ix13, R3.cm3, R3.th6, R4.th8, OK.ok2, R4.ps6, R4.th7, R5.tx2, R5.th9, R6.und1, R6.lb1, R6.ln3, R7.rx8],
+     [TH.th1, TH.th2, R2.th3, R2.th4, R2.cm2, MO.ln1, R3.rx5, R3.ix13, R3.cm3, R3.th6, R4.th8, OK.ok2, R4.ps6, R4.th7, R5.tx2, R5.th9, R6.und1, R6.lb1, R6.ln3, R7.rx8, R7.ord1],
      'escaping exactly once for all sources the property names, by a three-valued taint '
      '(raw / escaped-or-markup / mixed) through concatenations, helper functions, re.sub '
      'callbacks and result tuples; protect_html checked as a table (TH1); each match '
@@ -282,7 +282,7 @@ prop('C18',
      'DESIGN.md 3.8 (EX1, WL1), 4 C18')
 
 prop('C19',
-     [MI.uk, R2.uk5, SC.sc5, PS.ps1, R3.sp5, R3.mc1, R3.rs1, R4.um1, R4.sh1, R4.exw, R4.acc1, R4.st1, R5.uk7, R6.memo1, R6.lp1, R6.cl1, R6.sk1, R3.sc7, R3.cm3, R6.reg1, R6.sb7, R7.tc1, R7.sp6],
+     [MI.uk, R2.uk5, SC.sc5, PS.ps1, R3.sp5, R3.mc1, R3.rs1, R4.um1, R4.sh1, R4.exw, R4.acc1, R4.st1, R5.uk7, R6.memo1, R6.lp1, R6.cl1, R6.sk1, R3.sc7, R3.cm3, R6.reg1, R6.sb7, R7.tc1, R7.sp6, R7.dt2, R7.uk8],
      'recorded only when undeclared at the time of use, only in text mode, once, reset per '
      'document, printed one per line (UK); what is declared does not depend on earlier calls '
      '(PS1)',
@@ -294,7 +294,7 @@ prop('C19',
      'DESIGN.md 3.8 (UK1-UK4), 4 C19')
 
 prop('C20',
-     [RX.ck1, RX.ck4, RX.ck5, RX.ab4, OK.ok2, PS.ps1, R3.lc3, R3.ck6, R3.ck7, R4.ck8, R4.ck10, R4.rx7, R5.un1, R5.lc4, R6.und1, R6.ck13, R6.ck14, R6.ck15],
+     [RX.ck1, RX.ck4, RX.ck5, RX.ab4, OK.ok2, PS.ps1, R3.lc3, R3.ck6, R3.ck7, R4.ck8, R4.ck10, R4.rx7, R5.un1, R5.lc4, R6.und1, R6.ck13, R6.ck14, R6.ck15, R7.ns1],
      'single-letter scan pattern has width 1 between word boundaries and letters only, accepted '
      'patterns are literal, the suppression test is beg <= position < end with the right '
      'strictness, offset and length come from one match (CK1); the equation-punctuation pattern '
@@ -311,7 +311,7 @@ prop('C20',
      'DESIGN.md 3.8 (CK1-CK3), 3.2 (AB4), 4 C20')
 
 prop('C17',
-     [PS.ps1, PS.ps2, PS.ps3, R2.ps5, R4.ps6, R5.pair1, R6.ps7, R7.nd1],
+     [PS.ps1, PS.ps2, PS.ps3, R2.ps5, R4.ps6, R5.pair1, R6.ps7, R7.nd1, R7.guard1],
      'nothing reachable from the per-document entry points writes to an object that outlives '
      'the call: whole-program field-based may-alias analysis of persistent allocation sites '
      '(module level, class level, default arguments, cache decorators) against every in-place '
